@@ -49,6 +49,18 @@ class Executor(ExecResolve):
         if isinstance(stmt.value, ast.Constant):
             yield st, None
             return
+        if isinstance(stmt.value, ast.Yield) and self.depth == 0:
+            # generator under verification: the yielded values, in order, are the abstract result
+            for s, v in self.eval(stmt.value.value, st):
+                cur = s.env.get("__yielded__", VList([]))
+                if isinstance(v, V) and v.alias is not None:
+                    v = V(v.kind, v.t, v.cls)
+                if isinstance(v, VList):
+                    ek = self.contract.returns[1][1] if self.contract and self.contract.returns else None
+                    v = self.to_seq(v, ek)
+                s.env["__yielded__"] = self.mutated(s, cur, "append", [v])
+                yield s, None
+            return
         for s, _ in self.eval(stmt.value, st):
             yield s, None
 
@@ -139,6 +151,8 @@ class Executor(ExecResolve):
             old = st.env.get(tgt.id)
             if isinstance(v, VDict) and not v.items and self.is_dict(old):
                 v = self.empty_dict(st, old.kind)     # `lookup = {}` where lookup was a (None) dictionary parameter
+            if isinstance(v, VList) and not v.items and self.is_symseq(old):
+                v = self.to_seq(v, old.kind[1])       # `xs = []` re-initialising a list whose element kind is known
             st.env[tgt.id] = v
             yield st
         elif isinstance(tgt, (ast.Tuple, ast.List)):
@@ -234,6 +248,8 @@ class Executor(ExecResolve):
         names = set()
         for node in body:
             for n in ast.walk(node):
+                if isinstance(n, ast.Yield):
+                    names.add("__yielded__")
                 if isinstance(n, ast.Name) and isinstance(n.ctx, ast.Store):
                     names.add(n.id)
                 elif isinstance(n, ast.Call) and isinstance(n.func, ast.Attribute) and isinstance(n.func.value, ast.Name) \
